@@ -76,6 +76,21 @@ impl Store {
             }
         }
     }
+    /// File-level copy of one item into this storage (any backing).
+    pub fn insert_item(&mut self, key: &str, bytes: Arc<Vec<u8>>) {
+        self.version += 1;
+        match &mut self.backing {
+            Backing::Own(m) => {
+                m.entry(key.to_string()).or_insert(bytes);
+            }
+            Backing::Inner(a) => {
+                let _ = a.write_object(key, &bytes);
+            }
+        }
+    }
+    pub fn is_own(&self) -> bool {
+        matches!(self.backing, Backing::Own(_))
+    }
     pub fn own_mut(&mut self) -> &mut BTreeMap<String, Arc<Vec<u8>>> {
         self.version += 1;
         match &mut self.backing {
